@@ -7,6 +7,8 @@ spec: {"cwd": dir, "cases": [{"id":..., "files": {...}, "root": "root.yaml", "sr
        "shared_out": dir  - every closure is compiled into this ONE directory (all sources are written first, so every
                             definition file is older than whatever an earlier compilation left there); the outputs are
                             copied to the case's own directory afterwards,
+       "refused_before": true - (with "relative") every closure is compiled right after a compilation that was REFUSED (a duplicate id
+                            in a file of another directory): what a refusal leaves behind in the process is not an input,
        "clock_shift_days": n - this process believes it runs n days (and an odd number of seconds) later: the wall clock is an
                             input like the working directory, the outputs must not depend on it}"""
 import json
@@ -79,6 +81,16 @@ def main():
             os.chdir(os.path.dirname(c["src"]))
             root = os.path.relpath(root)
             out = os.path.relpath(out)  # ... and the output directory by a relative path as well
+        if spec.get("relative") and spec.get("refused_before"):
+            bad = defx.Program({"root.yaml": {"imports": ["parts/more.yaml"], "message_defs": {"RB_A": {"id": 4900, "fields": {"a": "int32"}}}},
+                                "parts/more.yaml": {"message_defs": {"RB_B": {"id": 4900, "fields": None}}}})
+            broot = os.path.relpath(bad.write(os.path.join(os.path.dirname(c["src"]), "refused")))
+            try:
+                valx.compile_file(broot, "refused", os.path.join(os.path.dirname(broot), "out"), python=True, **c.get("kw", {}))
+                res[str(c["id"])] = "the definition set with a duplicate id was accepted"
+                continue
+            except Exception:
+                pass
         try:
             targets = ["python", "javascript", "matlab", "c_lang", "info", "combined"]
             if spec.get("one_by_one") == "groups":
